@@ -71,11 +71,14 @@ func raceChild(args []string) {
 	fs.Parse(args)
 	logger.SetLevel(zap.FatalLevel)
 	mode := fs.Lookup("mode").Value.String()
-	if mode == "rot" || mode == "sealedpool" {
+	if mode == "rot" || mode == "sealedpool" || mode == "fsync" {
 		var o raceOut
-		if mode == "rot" {
+		switch mode {
+		case "rot":
 			o = rotChild(*seed, *dir)
-		} else {
+		case "fsync":
+			o = fsyncChild(*seed, *dir)
+		default:
 			o = sealedPoolChild(*seed, *dir)
 		}
 		b, _ := json.Marshal(o)
@@ -512,7 +515,7 @@ func runRace(rep *vh.Report, o vh.Opts, replayLine string) {
 	var cfgs []cfg
 	if replayLine != "" {
 		var c cfg
-		if strings.HasPrefix(replayLine, "race rot ") || strings.HasPrefix(replayLine, "race sealedpool ") {
+		if strings.HasPrefix(replayLine, "race rot ") || strings.HasPrefix(replayLine, "race sealedpool ") || strings.HasPrefix(replayLine, "race fsync ") {
 			c.mode = strings.Fields(replayLine)[1]
 			fmt.Sscanf(strings.Fields(replayLine)[2], "seed=%d", &c.seed)
 		} else if strings.HasPrefix(replayLine, "race inmem ") {
@@ -528,7 +531,8 @@ func runRace(rep *vh.Report, o vh.Opts, replayLine string) {
 			cfgs = append(cfgs, cfg{seed: int(o.Seed)*100 + i, writers: 2 + i%4, searchers: 2 + (i/2)%4, bulks: o.Pick(150, 400), fracsize: []int{600, 1500, 4000}[i%3]})
 		}
 		for i := 0; i < o.Pick(1, 4); i++ { // directed: append across a rotation; sealed providers after a failed search
-			cfgs = append(cfgs, cfg{seed: int(o.Seed)*100 + i, mode: "rot"}, cfg{seed: int(o.Seed)*100 + i, mode: "sealedpool"})
+			cfgs = append(cfgs, cfg{seed: int(o.Seed)*100 + i, mode: "rot"}, cfg{seed: int(o.Seed)*100 + i, mode: "sealedpool"},
+				cfg{seed: int(o.Seed)*100 + i, mode: "fsync"})
 		}
 		for i := 0; i < o.Pick(1, 3); i++ { // the single-mode write path (in-memory store client, reused metas buffer)
 			cfgs = append(cfgs, cfg{seed: int(o.Seed)*100 + i, bulks: o.Pick(60, 200), inmem: true})
@@ -563,7 +567,7 @@ func runRace(rep *vh.Report, o vh.Opts, replayLine string) {
 			}
 		}
 		if c.mode != "" {
-			orc.Case(line, res.Searches > 0, "directed="+c.mode)
+			orc.Case(line, res.Searches > 0 || res.Bulks > 0, "directed="+c.mode)
 		} else if c.inmem {
 			orc.Case(line, res.Bulks > 1, "path=in-memory-client")
 		} else {
